@@ -13,14 +13,14 @@ tvars == <<vars, l, run>>
 GateOf(pc) == CASE pc \in {"sG", "oG", "cG", "iG"} -> "G"
                 [] pc \in {"oE", "iE"} -> "E"
                 [] pc = "cNX" -> "NX"
-                [] pc \in {"fR", "pR", "iR"} -> "R"
-                [] pc = "pD" -> "deact"
+                [] pc \in {"fR", "pR", "iR", "fX"} -> "R"
+                [] pc \in {"pD", "fD"} -> "deact"
                 [] OTHER -> pc            \* call, act, P, wait, done
 Range(q) == {q[i] : i \in 1..Len(q)}
 
 Reset == /\ reg' = NoNode /\ gmap' = [n \in Nodes |-> 0] /\ pnode' = <<>> /\ pact' = {} /\ live' = {}
          /\ flight' = [n \in Nodes |-> NoThread] /\ wait' = [n \in Nodes |-> {}]
-         /\ th' = [t \in Threads |-> T0(t)] /\ fails' = MaxFails
+         /\ th' = [t \in Threads |-> T0(t)] /\ fails' = MaxFails /\ pfails' = MaxPutFails
          /\ last' = [t |-> "-", a |-> "init", pc |-> "-", at |-> NoNode, d |-> "-"]
 
 TStep ==
